@@ -24,7 +24,7 @@ type Opts struct {
 var AllFeatures = []string{
 	"async", "err", "multi", "bind", "struct", "value", "sets", "lit", "ext", "ctxparam",
 	"composite", "basic", "args", "unneeded", "multi-inj", "multi-file", "dupparam",
-	"generic", "variadic", "variadic-functype", "want-unsupplied", "kalias", "extalias", "value-and-pointer", "rewrap", "struct-both-forms", "alias-basic", "ctx-provider", "implements-error", "adv-pkg-shadowed-by-later-decl", "value-literal", "multi-var-sets", "ext-method-value", "err-alias",
+	"generic", "variadic", "variadic-functype", "want-unsupplied", "kalias", "extalias", "value-and-pointer", "rewrap", "struct-both-forms", "alias-basic", "ctx-provider", "implements-error", "adv-pkg-shadowed-by-later-decl", "value-literal", "multi-var-sets", "ext-method-value", "err-alias", "set-ref-paren",
 	"async-struct", "ptrrecv", "aiface", "embedded",
 }
 
@@ -956,7 +956,7 @@ func (g *gen) genGroupsAndInjectors() {
 		}
 		for j := k + 1; j <= nSets; j++ {
 			if parent[j] == k {
-				es = append(es, Elem{Kind: "set", Set: setName[j]})
+				es = append(es, Elem{Kind: "set", Set: setName[j], Paren: g.want("set-ref-paren", "setparen", 12)})
 			}
 		}
 		return es
@@ -1043,7 +1043,7 @@ func (g *gen) genGroupsAndInjectors() {
 			if inlineSet[k] {
 				elems = append(elems, Elem{Kind: "inline", Inline: setElems(k)})
 			} else {
-				elems = append(elems, Elem{Kind: "set", Set: setName[k]})
+				elems = append(elems, Elem{Kind: "set", Set: setName[k], Paren: g.want("set-ref-paren", "setparen", 12)})
 			}
 		}
 		// interleave sets among direct elems
